@@ -49,8 +49,8 @@ func init() {
 		NonTrivial: func(o *Outcome) bool {
 			return o.Hist.FaultFired["store:cut-effective"]+o.Hist.FaultFired["store:flip"]+o.Hist.FaultFired["store:garbage"] > 0
 		},
-		Rule:         "records captured from the run itself (hit records with identity / gzip+br variants, multi-valued and non-ASCII headers, empty and large bodies; hit-for-pass records; one record in eight carries a header value of 70-110 KB) are first read back undamaged after an eviction (they must come back as the stored response) and then fed back through the real lookup path after the entry was evicted: mode cut = the store returns the record cut at offset k for every k of a contiguous window (thorough tier: every offset 0..len-1 of the record, i.e. exhaustive per record), mode flip = seeded single bit flips, mode garbage = random bytes of the record's length, mode zerotail = the last 1..64 bytes read back as zeros (the other shape of a torn write). Oracle: no panic, no stuck request, bytes allocated during the request <= 64 x record length + 32 MiB (the allowance covers the fetch after the miss refilling the pooled gzip / brotli writers); every truncated record is a miss (the request reaches the origin and is answered correctly) and the key neither becomes a permanent error nor an immortal entry (final probe after the lifetime reaches the origin). The algebraic Bytes/FromBytes round trip over arbitrary structures is input testing and not claimed. non-trivial = at least one effective corruption was delivered; distinct = distinct history hash",
-		ExpectProbes: []string{"cut-record-checked", "flip-record-checked", "garbage-record-checked", "zerotail-record-checked", "final-probe-ok", "record-with-compressed-variants", "hit-for-pass-record", "clean-reload-checked", "clean-reload-of-header-block>64KiB"},
+		Rule:         "records captured from the run itself (hit records with identity / gzip+br variants, multi-valued and non-ASCII headers, empty and large bodies; hit-for-pass records; one record in eight carries a header value of 70-110 KB) are first read back undamaged after an eviction (they must come back as the stored response - a marker as a marker - and answering a client that takes the stored encoding must not allocate more than 64 x record length + 1 MiB; one record in twelve stands for a 3 MB body that compresses several hundred times) and then fed back through the real lookup path after the entry was evicted: mode cut = the store returns the record cut at offset k for every k of a contiguous window (thorough tier: every offset 0..len-1 of the record, i.e. exhaustive per record), mode flip = seeded single bit flips, mode garbage = random bytes of the record's length, mode zerotail = the last 1..64 bytes read back as zeros (the other shape of a torn write). Oracle: no panic, no stuck request, bytes allocated during the request <= 64 x record length + 32 MiB + 24 x the bytes it fetched from the origin (the allowance covers the fetch after the miss refilling the pooled gzip / brotli writers); every truncated record is a miss (the request reaches the origin and is answered correctly) and the key neither becomes a permanent error nor an immortal entry (final probe after the lifetime reaches the origin). The algebraic Bytes/FromBytes round trip over arbitrary structures is input testing and not claimed. non-trivial = at least one effective corruption was delivered; distinct = distinct history hash",
+		ExpectProbes: []string{"cut-record-checked", "flip-record-checked", "garbage-record-checked", "zerotail-record-checked", "final-probe-ok", "record-with-compressed-variants", "hit-for-pass-record", "clean-reload-checked", "clean-reload-of-header-block>64KiB", "clean-reload-of-marker-checked", "clean-reload-allocation-checked", "clean-reload-of-body>1MiB"},
 	})
 	register(&Profile{
 		Name:     "C08",
@@ -239,6 +239,13 @@ func genC09(g *Gen) *Plan {
 		if g.p(0.3) {
 			rec.ETag = `"abc"`
 		}
+		if g.p(0.08) {
+			// a body that compresses several hundred times: the record is a few KB, the body 3 MB
+			rec.Size = 3_000_000
+			rec.Class = "rep"
+			rec.Enc = ""
+			rec.CType = "text/plain"
+		}
 		if g.p(0.12) {
 			// a very long header value (a Link list, a policy): the header block of the record
 			// is far beyond 64 KiB
@@ -337,10 +344,37 @@ func oracleC09(o *Outcome) []Violation {
 			continue
 		}
 		first := o.Hist.Ups[0]
-		if !first.Shareable || first.Verdict.Ambiguous || !first.Answered || first.Key != v.R.Key {
+		if first.Verdict.Ambiguous || !first.Answered || first.Key != v.R.Key || first.Reply.Fault != "" {
+			continue
+		}
+		if !first.Shareable {
+			// a hit-for-pass marker (period 20s, the reloads fall inside it) comes back as a marker:
+			// the request passes, it does not take the fetching role again
+			o.Hist.Probes["clean-reload-of-marker-checked"]++
+			if v.XStatus == "fetching" {
+				out = append(out, violation("C09", "undamaged-record-not-restored", "an undamaged, unexpired record did not come back as the stored response",
+					"client op %d %s: the key's hit-for-pass marker (written %d s earlier, period 20 s) was evicted and its record read back intact, yet the request took the fetching role again (label %q)", v.R.Op, v.R.Key, (v.R.InvokeT-first.ReplyT)/1000, v.XStatus))
+			}
 			continue
 		}
 		o.Hist.Probes["clean-reload-checked"]++
+		if enc := v.R.Res.Header.Get("Content-Encoding"); len(v.OwnUps) == 0 && (enc == "gzip" || enc == "br") {
+			// served as stored (no transcoding, no fetch): decoding the record and answering from it
+			// costs a small multiple of the record, however large the body it stands for
+			for _, sr := range o.Hist.Stores {
+				if sr.Task == v.R.Task && sr.Op == "get" && sr.OutLen > 0 {
+					o.Hist.Probes["clean-reload-allocation-checked"]++
+					if len(first.BodyRaw) > 1<<20 {
+						o.Hist.Probes["clean-reload-of-body>1MiB"]++
+					}
+					if v.R.Res.AllocBytes > int64(64*sr.OutLen+1<<20) {
+						out = append(out, violation("C09", "allocation-on-valid-record", "decoding an intact record allocated far more than its size",
+							"client op %d %s: %d bytes allocated while answering (Content-Encoding %s, no upstream contact) from a %d byte record whose body decodes to %d bytes", v.R.Op, v.R.Key, v.R.Res.AllocBytes, enc, sr.OutLen, len(first.BodyRaw)))
+					}
+					break
+				}
+			}
+		}
 		if len(first.Reply.Header) > 0 && len(first.Call.header.Get("Link")) > 65536 {
 			o.Hist.Probes["clean-reload-of-header-block>64KiB"]++
 		}
@@ -391,7 +425,13 @@ func oracleC09(o *Outcome) []Violation {
 		// (the allowance covers the fetch that follows a miss when the garbage collector has just
 		// emptied the pooled gzip / brotli writers: 2-3 MB in a tenth of the requests, 5 MB seen once
 		// in several million; an allocation sized from a damaged length field is far beyond it)
-		if r.Res != nil && r.Res.AllocBytes > int64(64*max(s.OutLen, s.FullLen)+32<<20) {
+		// (plus what fetching and compressing the origin's body costs when the request went upstream:
+		// 11-15 x its size was measured for a 3 MB body)
+		fetched := 0
+		for _, u := range v.OwnUps {
+			fetched += len(u.BodyRaw)
+		}
+		if r.Res != nil && r.Res.AllocBytes > int64(64*max(s.OutLen, s.FullLen)+32<<20+24*fetched) {
 			out = append(out, violation("C09", "allocation-on-bad-record", "decoding a damaged record allocated far more than its size",
 				"client op %d %s: %d bytes allocated while handling a %d byte record damaged by %q", r.Op, r.Key, r.Res.AllocBytes, s.OutLen, fault))
 		}
